@@ -1,4 +1,4 @@
-import TxV.Proofs.Pipeline
+import TxV.Proofs.PipelineLinks
 /-!
 # C28 — PipelineBuilder pipelines are ordered, lossless and compute the composed stages
 
@@ -17,8 +17,11 @@ enabled at every step; nothing else is assumed.  Histories (`Hist`, per node, si
 `clear`): `cons` records consumed, `xs` values given by the environment (caller arguments, or
 decoupling-pipe contents), `outs` records produced, `ents` decoupling-pipe entries.
 
-That the real circuit's runs are runs of this automaton is checked by the correspondence
-(trace inclusion), not proved: readiness/progress of the real pipeline is not modelled.
+The links of the automaton are not left abstract: `c28_links_refined` shows that the lock-step
+product of the proved component models of the real forwarders (`Pipe`, C17; `BasicFifo`, C14)
+is exactly the automaton.  What remains tied only by the correspondence (trace inclusion) is
+that the builder wires the stages to these components as the automaton says; readiness/progress
+of the real pipeline is not modelled.
 -/
 namespace TxV.Pipeline
 
@@ -120,6 +123,43 @@ theorem c28_live (d : Desc) (after : List Nat) (k : Nat) :
       · right; exact ⟨h, by simpa using hk⟩
     · left; exact ⟨h1, h2⟩
 
+-- OBLIGATION c28_pipe_link : the Pipe component model (C17; read before write, write ready iff empty or read runs this cycle, clear wins) implements the automaton's capacity-1 link and the decoupling pipe: write executes iff attempted and (empty or reader runs), read returns the head, content afterwards = (tail if read) ++ written, [] on clear
+theorem c28_pipe_link (C : Codec) (s : Pipe.State) (w : Option Rec) (r c : Bool) :
+    let q := pipeAbs C s
+    let res := pipeStep s (w.map C.enc) r c
+    (res.2.1.isNone = (w.isNone || !(decide (q.length < 1) || r))) ∧
+    (res.2.2.map C.dec = if r then q.head? else none) ∧
+    (pipeAbs C res.1 = if c then [] else
+      (if r then q.tail else q) ++ (if decide (q.length < 1) || r then w.toList else [])) :=
+  pipe_refines C s w r c
+
+-- OBLIGATION c28_fifo_link : the BasicFifo(depth) component model (C14, under its invariant) implements the automaton's capacity-depth link: write executes iff attempted and not full in the pre-state, read returns the head, content afterwards = (tail if read) ++ written, [] on clear; the invariant is preserved
+theorem c28_fifo_link (C : Codec) (d : Nat) (s : BasicFifo.State) (h : BasicFifo.Inv d s)
+    (w : Option Rec) (r c : Bool) :
+    let q := (BasicFifo.abs d s).map C.dec
+    let res := BasicFifo.step d s { w := w.map C.enc, r := r, p := false, c := c }
+    (res.2.wr.isNone = (w.isNone || !decide (q.length < d))) ∧
+    (res.2.rd.map C.dec = if r then q.head? else none) ∧
+    ((BasicFifo.abs d res.1).map C.dec = if c then [] else
+      (if r then q.tail else q) ++ (if decide (q.length < d) then w.toList else [])) ∧
+    BasicFifo.Inv d res.1 :=
+  fifo_refines C d s h w r c
+
+-- OBLIGATION c28_links_refined : the lock-step product of component models (one Pipe or BasicFifo(cap) per link, one Pipe per decoupling pipe; stage i attempts `write` on link i+1 with the record it produces, `read` on link i and on its decoupling pipe; `clear` goes to all) driven by ANY label yields exactly the automaton's `step` on the abstracted state (abs = decoded queue contents): same acceptance/rejection, same outputs, same next state; hence from reset every run of the product is the automaton's run, for every pipeline shape with Pipes of capacity 1 and FIFOs of positive depth and every record codec
+theorem c28_links_refined (C : Codec) (nodes : List Node) :
+    (∀ (cs : List CNodeSt) (l : Label), AllOk nodes cs →
+      (cstep C nodes cs l).map (fun p => (absSt C nodes p.1, p.2)) = step nodes (absSt C nodes cs) l ∧
+      (∀ cs' outs, cstep C nodes cs l = .ok (cs', outs) → AllOk nodes cs')) ∧
+    (WfNodes nodes → ∀ ls : List Label,
+      (crun C nodes (cinit nodes) ls).map (fun p => (absSt C nodes p.1, p.2)) = run nodes (init nodes) ls) := by
+  refine ⟨fun cs l hok => cstep_refines C nodes cs l hok, ?_⟩
+  intro hwf ls
+  rw [← abs_cinit C nodes]
+  exact crun_refines C nodes ls (cinit nodes) (allOk_cinit nodes hwf)
+
+/-- non-vacuity of the codec parameter: a concrete injective flattening of records exists -/
+example : ∀ r : Rec, Codec.std.dec (Codec.std.enc r) = r := Codec.std.dec_enc
+
 /-- non-vacuity: source → (+1, Pipe) → sink behind a FIFO of depth 2; a schedule in which the
     middle stage and the sink stall, both links fill up, and a clear drops two items in flight -/
 example :
@@ -155,3 +195,6 @@ end TxV.Pipeline
 #print axioms TxV.Pipeline.c28_fields
 #print axioms TxV.Pipeline.c28_clear
 #print axioms TxV.Pipeline.c28_live
+#print axioms TxV.Pipeline.c28_pipe_link
+#print axioms TxV.Pipeline.c28_fifo_link
+#print axioms TxV.Pipeline.c28_links_refined
